@@ -54,3 +54,10 @@ package upstreamclusteradmission
 //@   loop 1: invariant [todo] forall k int :: {DP[k]} i < k && k < len(DP) ==> DP[k] === DP0[k]
 //@   loop 1: invariant [done_inner] forall l int :: {DP[i].Rules[l]} 0 <= l && l < idx ==> DP[i].Rules[l] === normalizeRules(DP0[i].Rules[l])
 //@   loop 1: invariant [todo_inner] forall l int :: {DP[i].Rules[l]} idx <= l && l < len(DP[i].Rules) ==> DP[i].Rules[l] === DP0[i].Rules[l]
+
+// (C16, C17) Admission (defaulting, normalisation AND validation, which is also where the feature-gate annotation is
+// checked) is skipped only for requests that are not about an UpstreamCluster object itself: another resource, a
+// subresource, no object. It never depends on the old object or on what changed.
+//@ func shouldIgnore props C16, C17
+//@   modifies nothing
+//@   ensures [cluster_objects_never_skipped] defined(obj) ==> (result <==> obj == nil || !typeis(obj, "*v1alpha1.UpstreamCluster"))
